@@ -65,6 +65,7 @@ func runC08(cfg *Config) *Report {
 		prog := pg.goal(2+r.Intn(7), 1)
 		n := r.Intn(5) - 1
 		gcase := genGRun(r)
+		gmcase := genGMap(r)
 		if cfg.Only >= 0 && cfg.Only != i {
 			cf.add("CReifyS TNil []")
 			rep.CaseDesc = append(rep.CaseDesc, "")
@@ -106,6 +107,10 @@ func runC08(cfg *Config) *Report {
 			if strings.Count(showTerm(v), "?") >= 2 {
 				rep.nontrivial(desc)
 			}
+		case kind == 12:
+			desc, obs = gmcase.desc, runGMap(gmcase, rep, i)
+			rep.hist("gomini-run (leaves in struct fields, slices, maps, nested records)")
+			rep.nontrivial(desc)
 		case kind >= 10:
 			desc, obs = gcase.desc, runGRun(gcase, rep, i)
 			rep.hist("gomini-run")
